@@ -121,4 +121,17 @@ bool ops_misc(Ctx& c, const json& s, int idx, bool& handled) {
 		if (exists != s["existsAfter"].get<bool>()) { Proto::mismatch(fsite, refused ? "refused-open-created-or-removed-the-file" : "not-created", note()); return false; }
 		if (exists && !s["unspecified"].get<bool>()) { auto got = Scen::slurp(path), want = raw(s["final"]); if (got != want) { Proto::mismatch(fsite, refused ? "refused-open-altered-the-file" : "content", note() + " " + Scen::hexdiff(got, want)); return false; } }
 		return true; }
+	// ---- C12: size-prefixed container reads on streams long enough for a wrapped negative count to be satisfiable ----------------------
+	if (op == "prefixed_read") { const std::string T = s["prefix"]; auto img = Scen::expand(s["segs"]); const bool wantOk = s["expect"] == "ok";
+		for (const std::string backend : {"mem", "memslice", "fileslice"}) { const std::string bsite = site + "/" + T + "/" + backend; Proto::sanitize(Proto::g_site, sizeof Proto::g_site, bsite);
+			std::vector<unsigned char> padded(2, 0xEE); padded.insert(padded.end(), img.begin(), img.end()); padded.push_back(0xDD); std::unique_ptr<Stream::BidirectionalReader> r;
+			if (backend == "mem") r = std::make_unique<Stream::MemoryReader>(img.data(), img.size());
+			else if (backend == "memslice") { Stream::MemoryReader outer(padded.data(), padded.size()); r = std::make_unique<Stream::MemoryReader>(outer.Slice(2, img.size())); }
+			else { Scen::spit(ROOT + "/p.bin", padded); Stream::FileReader outer(ROOT + "/p.bin"); r = std::make_unique<Stream::FileSliceReader>(outer.Slice(2, img.size())); }
+			std::vector<unsigned char> got{7, 7, 7}; bool err = throws([&] { if (T == "i8") r->Read<int8_t>(got); else r->Read<int16_t>(got); });
+			auto note = [&] { return where(T + " prefix over " + std::to_string(img.size()) + " bytes: " + (err ? "refused" : "delivered " + std::to_string(got.size()) + " elements") + ", position " + std::to_string((long long)r->Position())); };
+			if (err == wantOk) { Proto::mismatch(bsite, err ? "refused-should-accept" : "accepted-should-refuse", note()); return false; }
+			if (!err) { std::size_t w = T == "i8" ? 1 : 2, n = s["count"]; if (got.size() != n || !std::equal(got.begin(), got.end(), img.begin() + w) || r->Position() != s["consumed"].get<unsigned long long>()) { Proto::mismatch(bsite, "bytes", note()); return false; } }
+			else if (r->Position() > r->Length()) { Proto::mismatch(bsite, "state-after-failure", note()); return false; } }
+		return true; }
 	OPS_EPILOGUE }
